@@ -144,3 +144,11 @@ def sixty_four(O):
     if O.profile == "dev":
         C07.virtual_64(O)
     C07.expected_mask(O)
+
+
+@obligation("C14/no-read-skipped", desc="Expr::eval, one recursion step: both operands of a binary operator and the operand of a "
+            "unary one are evaluated, whatever the other operand's value (a virtual signal whose expression reads a Z / X "
+            "output is an error however the other operand evaluates)")
+def no_read_skipped(O):
+    from . import C08
+    C08.expr_eval_step(dri.WithRep(O, rep()))
